@@ -196,6 +196,9 @@ pub enum Op {
     RemoveFresh { s: u8 },
     /// removes every element with `remove` (tombstones stay behind in tables of >= 16 buckets)
     RemoveAll { s: u8 },
+    /// removes every element that is still in the old table, one by one
+    /// (how: 0 remove, 1 remove_entry, 2 occupied-entry remove, 3 raw-entry remove, 4 replace_entry_with(None))
+    RemoveOld { s: u8, how: u8, keep: u8 },
     /// get() of every key either map holds, in both maps (C14)
     CrossGet,
     // feature checks that need a state
@@ -263,6 +266,7 @@ impl Op {
             Op::RemoveFresh { .. } => "remove_fresh",
             Op::CrossGet => "cross_get",
             Op::RemoveAll { .. } => "remove_all",
+            Op::RemoveOld { .. } => "remove_old",
             Op::ParCheck { .. } => "par_check",
             Op::SerdeCheck { .. } => "serde_check",
             Op::SetPoint { which, .. } => match which % 9 {
